@@ -420,6 +420,10 @@ fn classify(p: &Primitive) -> ObjKind {
     }
 }
 
+pub fn classify_pub(p: &Primitive) -> ObjKind {
+    classify(p)
+}
+
 fn trailer_refs(bytes: &[u8], password: &[u8]) -> Vec<u64> {
     use pdf::file::{NoCache, NoLog, Storage};
     let mut out = vec![];
